@@ -146,3 +146,15 @@ Theorem C17_files_refuted_shared_name :
   /\ flat_map (fun f => diagnostics (alone c17_env false f)) files = [].
 Proof. vm_compute. split; reflexivity. Qed.
 Print Assumptions C17_files_refuted_shared_name.
+
+(** ** "file is the query file containing the offending statement": the name printFileErr prints
+    (Model/Driver.v print_name, evaluated against the real stderr of cmd.Generate for query files
+    inside, next to and outside the configuration directory) *)
+From Verif Require Import Model.Driver Proofs.PrintName.
+Theorem C17_printed_name_inside : forall dir rel, print_name dir (dir +++ "/" +++ rel) = rel.
+Proof. exact print_name_inside. Qed.
+Print Assumptions C17_printed_name_inside.
+
+Theorem C17_printed_name_outside : forall dir file, has_prefix file (dir +++ "/") = false -> print_name dir file = file.
+Proof. exact print_name_outside. Qed.
+Print Assumptions C17_printed_name_outside.
